@@ -48,6 +48,7 @@ from explorerscript.ssb_converting.ssb_special_ops import (
     OPS_THAT_END_CONTROL_FLOW,
     SsbLabel,
     OP_HOLD,
+    OP_CALL,
     OP_JUMP,
     OPS_BRANCH,
     IfStart,
@@ -550,7 +551,8 @@ class SsbGraphMinimizer:
             while had_to_restart:
                 had_to_restart = False
                 for v in g.bfsiter(g.vs[0]):
-                    loop_edges = [e for e in v.in_edges() if e["loop"]]
+                    # (a call that goes back to a label is no way to continue a loop, it is written as the call it is)
+                    loop_edges = [e for e in v.in_edges() if e["loop"] and not self._is_call(e.source_vertex)]
                     if len(loop_edges) > 0 and len(v["op"].markers) == 0:
                         # To this node jumps a loop. Check if we can build a proper forever-loop.
                         can_build, break_points, continue_points = self._build_loops__try_loop(v)
@@ -655,13 +657,17 @@ class SsbGraphMinimizer:
                             had_to_restart = True
                             break
 
+    @staticmethod
+    def _is_call(v: Vertex) -> bool:
+        return isinstance(v["op"], SsbLabelJump) and v["op"].maybe_root is not None and v["op"].root.op_code.name == OP_CALL
+
     def _build_loops__try_loop(self, start: Vertex) -> tuple[bool, list[Edge] | None, list[Edge] | None]:
         """
         Try to find a loopable section of the graph starting at v.
         If found, the second entry of the returned tuple contains breaking points and the third all required continue
         markers.
         """
-        continues = [e for e in start.in_edges() if e["loop"]]
+        continues = [e for e in start.in_edges() if e["loop"] and not self._is_call(e.source_vertex)]
 
         # Make sure the loop doesn't cross any existing loops
         def path_filter(e: Edge, v: Vertex) -> bool:
